@@ -313,6 +313,9 @@ class ExpansionData:
         return target
 
     def _setExpansionTarget(self, b: "Block", target: "Component"):
+        # a block has one target component: a new designation replaces the previous one
+        for c in b:
+            self._componentDeterminesBlockHeight.pop(c, None)
         self._componentDeterminesBlockHeight[target] = True
         b.p.axialExpTargetComponent = target.name
 
